@@ -16,15 +16,26 @@ RULE = ('exhaustive small scope: get_spans through Field.get_spans / Session.get
         '(kernel / Session / Field level, int32 and int64 spans) on every valid span partition x every column of length '
         '0..4 (numeric 3 values, fixed 5 strings, indexed 7 prefix-heavy strings), the *_filter kernels on every weakly '
         'increasing span list; plus seeded random longer inputs (runs, up to 40 rows) and a malformed stream (unequal '
-        'lengths, empty / unsorted / out-of-range spans) compared error-for-error with the model. Non-trivial = the case '
-        'reaches a planted feature (see features).')
+        'lengths, empty / unsorted / out-of-range spans) compared error-for-error with the model. LARGE inputs (stored '
+        'run-length encoded, answered on the encoding by spans_of_rle / rle_*_ref, theorems spans_rle_* / apply_spans_rle): '
+        'for every block length K in a standing sweep (2^8..2^23, 10^3..10^6; thorough also 3*2^k, 5*10^6) and every integer '
+        'literal that is NEW in the tree under test (harness/hot.py, up to 2^23; for those every layout x every dtype): '
+        'columns of K..3K+1 rows with value changes planted at rows K-1, K, K+1, 2K-1, 2K, 2K+1, 3K (and none at all) '
+        'through every one-column entry point, pairs of such columns through fields=(Field,Field) / (ndarray,ndarray), '
+        'random run layouts around K, and min / max / first / last / index_of_min / index_of_max (kernel, Session, Field) '
+        'with the extreme rows (and ties) at / next to K and 2K and spans that straddle, start or end at them. '
+        'Non-trivial = the case reaches a planted feature (see features).')
 EXHAUSTIVE = {'quick': True, 'thorough': True}
 TRUSTED = ['numpy element-wise `!=`, `<`, `>` on int/float/bool/S arrays and numba\'s charseq comparisons are the exact '
            '(byte-wise unsigned, NUL-padded) comparisons of the model (exercised by this correspondence, not proved)',
            'float columns are NaN-free multiples of 1/4 (order-embedded into Z by the harness)',
-           'apply_index_to_indexed_field (C09) maps the row indices returned by the indexed kernels to strings']
+           'apply_index_to_indexed_field (C09) maps the row indices returned by the indexed kernels to strings',
+           'large cases: the harness expands a run-length encoding with numpy.repeat / numpy.tile (offsets by cumsum); '
+           'Model/SpansRle.v `expand` is the meaning of that expansion (numpy.repeat itself is not verified)']
 ASSUMPTIONS = ['NaN-free floats', 'fewer than 2^31-1 rows (int32 span dtype branch; the int64 branch is the same code)',
-               'span kernels are called with dest_array=None (the only way the entry points call them)']
+               'span kernels are called with dest_array=None (the only way the entry points call them)',
+               'large (run-length encoded) cases: up to 3*2^23+1 rows of 1-byte elements (2^25 bytes per column); a block '
+               'length above 2^23 is not reached; per-row interpreted loops (USE_NUMBA=false) are run up to 2^17 rows only']
 TECHNIQUE = ('Coq proof (Gallina model of every span kernel = list-level span / per-span reduction specification) + '
              'exhaustive small-scope differential correspondence against the real entry points')
 LEVEL_TEXT = ('Theorems in coq/Props/C08.v prove for all inputs that the models of get_spans_for_field, the 2-field, '
@@ -836,7 +847,7 @@ def _gen_rle(tier, rng):
         every = big or new                       # thorough / a new literal: every layout x every kind that fits
         for name, runs in _rle_layouts(K):
             n = sum(x for _, x in runs)
-            kinds = RLE_KINDS if every else [RLE_KINDS[(t + j) % len(RLE_KINDS)] for j in (0, 3)]
+            kinds = RLE_KINDS if every else [RLE_KINDS[(t + j) % len(RLE_KINDS)] for j in ((0, 3) if K < 1 << 22 else (0,))]
             for k in kinds:
                 if not _rle_fits(k, n):
                     k = 'int8' if not every else None
@@ -847,7 +858,7 @@ def _gen_rle(tier, rng):
                        'h5': t % 8 == 0 and n * _ITEMSIZE[k] <= RLE_H5_BYTES}
         for name, r0, r1 in _rle_pairs(K):
             n = sum(x for _, x in r0)
-            combos = pair_kinds if every else [pair_kinds[(t + j) % len(pair_kinds)] for j in (0, 2)]
+            combos = pair_kinds if every else [pair_kinds[(t + j) % len(pair_kinds)] for j in ((0, 2) if K < 1 << 22 else (0,))]
             for (k0, k1) in combos:
                 if not (_rle_fits(k0, n) and _rle_fits(k1, n)):
                     if every:
@@ -943,11 +954,29 @@ def _gen_rle_apply(tier, rng):
                     yield case
 
 
+def summarize(recs):
+    ks, hot_ks, n, rows = set(), set(), 0, 0
+    for r in recs:
+        c = r['case']
+        if c['op'] in ('gsr', 'gsr2f', 'gsr2a', 'apr'):
+            n += 1
+            rows = max(rows, _rle_rows(c.get('col') or c['c0']))
+            if c.get('K'):
+                (hot_ks if c.get('hotK') else ks).add(c['K'])
+    return {'large_inputs': {'cases': n, 'largest_column_rows': rows, 'block_lengths_standing_sweep': sorted(ks),
+                             'block_lengths_from_new_literals': sorted(hot_ks),
+                             'new_literals_too_large_to_plant': unreachable_sizes()}}
+
+
 RLE_STRIDE = 48      # one large case after this many small ones: spreads them over the worker batches
 
 
 def gen(tier, rng):
-    import random
+    import random, os
+    if os.environ.get('VERIF_C08_LARGE', '1') == '0':      # development switch (timing of the small-scope part alone)
+        for c in _gen_small(tier, rng):
+            yield c
+        return
     larges = itertools.chain.from_iterable(itertools.zip_longest(
         _gen_rle(tier, random.Random(rng.getrandbits(64))), _gen_rle_apply(tier, rng)))
     larges = (c for c in larges if c is not None)
